@@ -11,20 +11,35 @@ import (
 
 // error templates of the library's fmt.Errorf / errors.New call sites -> tags of Model/Errors.v
 var errTemplates = map[string]string{
-	"expected 8-byte counter, got %d":                                "T_counter_len",
-	"challenge too short: expected at least %d bytes, got %d":        "T_chal_short",
-	"challenge too long: must not exceed 128 bytes, got %d":          "T_chal_long",
-	"password required but not provided":                             "T_pw_missing",
-	"PSHA1 password must be 20 bytes, got %d":                        "T_pw_sha1",
-	"PSHA256 password must be 32 bytes, got %d":                      "T_pw_sha256",
-	"PSHA512 password must be 64 bytes, got %d":                      "T_pw_sha512",
-	"session info too long: max 128 bytes, got %d":                   "T_sess_long",
-	"expected 8-byte timestamp, got %d":                              "T_ts_len",
-	"invalid digit length: %d":                                       "T_digit_len",
-	"unsupported hash algorithm: %v":                                 "T_bad_hash",
-	"password input enabled but no password hash specified":          "T_pw_nohash",
-	"timestamp input enabled but invalid time step: %d":              "T_bad_step",
-	"challenge input required but no challenge format set":           "T_no_format",
+	"expected 8-byte counter, got %d":                         "EFmt T_counter_len",
+	"challenge too short: expected at least %d bytes, got %d": "EFmt T_chal_short",
+	"challenge too long: must not exceed 128 bytes, got %d":   "EFmt T_chal_long",
+	"password required but not provided":                      "EFmt T_pw_missing",
+	"PSHA1 password must be 20 bytes, got %d":                 "EFmt T_pw_sha1",
+	"PSHA256 password must be 32 bytes, got %d":               "EFmt T_pw_sha256",
+	"PSHA512 password must be 64 bytes, got %d":               "EFmt T_pw_sha512",
+	"session info too long: max 128 bytes, got %d":            "EFmt T_sess_long",
+	"expected 8-byte timestamp, got %d":                       "EFmt T_ts_len",
+	"invalid digit length: %d":                                "EFmt T_digit_len",
+	"unsupported hash algorithm: %v":                          "EFmt T_bad_hash",
+	"password input enabled but no password hash specified":   "EFmt T_pw_nohash",
+	"timestamp input enabled but invalid time step: %d":       "EFmt T_bad_step",
+	"challenge input required but no challenge format set":    "EFmt T_no_format",
+	// the suite parser
+	"invalid OCRA suite format: %q":          "EFmt T_suite_format",
+	"unsupported OCRA version: %q":           "EFmt T_suite_version",
+	"unknown or unsupported crypto in %q":    "EFmt T_suite_crypto",
+	"invalid crypto format: %q":              "EFmt T_crypto_format",
+	"unsupported hash %q":                    "EFmt T_suite_hash",
+	"invalid digit spec %q":                  "EFmt T_suite_digits",
+	"unsupported numeric challenge spec %q":  "EFmt T_numeric_spec",
+	"unknown password hash type %q":          "EFmt T_pw_type",
+	"invalid time spec %q: %w":               "EFmt T_time_spec",
+	"unknown data input token %q":            "EFmt T_unknown_token",
+	// errors whose text the model does not render (class only): the arguments are dropped
+	"too short time spec":    "EStd 10",
+	"unknown time unit %q":   "EStd 12",
+	"time step out of range": "EStd 13",
 }
 
 func (fc *fctx) tmp() string {
@@ -189,6 +204,9 @@ func (fc *fctx) unary(e *ast.UnaryExpr) string {
 		// &x: &def (a Param copy), &hmacPools[i]
 		if fc.t.kindOf(fc.typeOf(e)) == kParamPtr {
 			return "(Some " + fc.expr(e.X) + ")"
+		}
+		if fc.t.kindOf(fc.typeOf(e)) == kSuitePtr {
+			return fc.expr(e.X) // passed to an in/out parameter: the callee returns the new value
 		}
 		if fc.t.kindOf(fc.typeOf(e)) == kPoolEntry {
 			if ix, ok := e.X.(*ast.IndexExpr); ok {
@@ -444,8 +462,14 @@ func (fc *fctx) index(e *ast.IndexExpr) string {
 			if g, ok := t.globalNames[id.Name]; ok && t.globalTables[id.Name] {
 				return fc.bind("idxN " + g + " " + fc.toZ(e.Index))
 			}
+			if id.Name == "knownSuites" {
+				return "(fst (lookup_go " + fc.expr(e.Index) + "))"
+			}
 			t.fail(e, "index into package variable %s", id.Name)
 		}
+	}
+	if fc.kind(e.X) == kStrList {
+		return fc.bind("idxS " + fc.expr(e.X) + " " + fc.toZ(e.Index))
 	}
 	if fc.kind(e.X) != kBytes {
 		t.fail(e, "index into %s", fc.typeOf(e.X))
@@ -486,6 +510,8 @@ func (fc *fctx) selector(e *ast.SelectorExpr) string {
 		recv = p.Elem()
 		if t.kindOf(sel.Recv()) == kParamPtr {
 			x = fc.bind("deref " + x)
+		} else if t.kindOf(sel.Recv()) == kSuitePtr {
+			// an in/out parameter: always the address of a caller's variable
 		} else {
 			t.fail(e, "field through pointer to %s", recv)
 		}
